@@ -299,7 +299,7 @@ def run(ctx):
 
     v2 = view(ctx, lsv2)
     merges = [(n, c) for (n, c) in v2.calls(lambda c: call_name(c) == "_load_schema_version_sub"
-                                            and any(kw.arg == "schema" for kw in c.keywords))]
+                                            and cg.arg(c, "schema") is not None)]
     ctx.floor("R13.3", "merge calls in _load_schema_version", len(merges), 1)
     dup_conds = []
     for cnd in v2.conds(lambda t: True):
